@@ -215,10 +215,10 @@ for name, s in MESSAGES.items():
     e = outcome(decoder.process, damage_length(s, 4, -ln), info_only=True)
     assert type(e) is PyBufrKitError and e.message == EXCEEDS.format(4, 0, 32), e.message
 
-# 3b. Outside of what the property covers, recorded only to show that the refactoring preserves it: a
-# section 2 that declares less than its own four leading octets makes the "rest of the section" read
-# (a parameter of zero width) ask for a negative number of bits, which the bit reader rejects with a
-# plain ValueError, before the check of the declared length is reached.
+# 3b. A section 2 that declares less than its own four leading octets makes the "rest of the section"
+# read (a parameter of zero width) come out with a negative number of bits.
+# (rebased: since "fix: a section declared shorter than its fixed part is reported with PyBufrKitError"
+# this is refused as an overrun before the bit reader is asked; it used to be a plain ValueError)
 for name in ('profiler_european', 'uegabe'):
     s = MESSAGES[name]
     off, ln = layout(s)[2]
@@ -226,8 +226,8 @@ for name in ('profiler_european', 'uegabe'):
         bad = s[:off] + new_length.to_bytes(3, 'big') + s[off + 3:]
         for info_only in (False, True):
             e = outcome(decoder.process, bad, info_only=info_only)
-            assert type(e) is ValueError, (name, new_length, e)
-            assert str(e) == "Can't parse 'name[:]length' token 'bin:{}'.".format((new_length - 4) * 8)
+            assert type(e) is PyBufrKitError, (name, new_length, e)
+            assert e.message == EXCEEDS.format(2, new_length, (4 - new_length) * 8), e.message
     # from 4 octets on, the rest-of-section read is empty or positive, and damage is a library error again
     for new_length in range(4, ln):
         bad = s[:off] + new_length.to_bytes(3, 'big') + s[off + 3:]
